@@ -51,7 +51,7 @@ APPL = {
     "getrandom": ["I"], "copy_file_range": ["ENOMEM"],
 }
 
-SCENARIOS = ["loop", "basic", "tcp", "tcp_big", "pipe", "pipe_big", "tcp_refused", "tcp_many", "udp",
+SCENARIOS = ["loop", "basic", "tcp", "tcp_big", "pipe", "pipe_big", "tcp_refused", "tcp_many", "connect_fail", "udp",
              "fs_sync", "fs_async", "fs_event", "fs_poll", "spawn", "spawn_fail", "spawn_many", "signal",
              "dns", "os", "work", "pairs", "ipc", "sysinfo"]
 QUICK_SKIP_HEAVY = {"tcp_big", "pipe_big"}        # quick: sampled more thinly (hundreds of reads)
@@ -77,24 +77,12 @@ SITES = {
 PERMITTED = {"maybe_resize", "poller_register", "fs_poll_rearm", "inotify_fork", "threadpool_start"}
 
 KNOWN_TEXT = {
-    "uv_write2_enomem_leaves_req_registered":
-        "uv_write2 (src/unix/stream.c:1355-1367) registers the request before allocating req->bufs; when that "
-        "allocation fails it returns UV_ENOMEM with loop->active_reqs.count still incremented: uv_loop_alive() "
-        "stays 1 and uv_loop_close() returns UV_EBUSY; e.g. uv_write with 6 buffers, first allocation fails",
-    "fs_poll_start_stat_failure_frees_ctx_with_linked_timer":
-        "uv_fs_poll_start (src/fs-poll.c:92-112): when uv_fs_stat fails (path strdup fails) the context is freed "
-        "while its timer handle, initialised by uv_timer_init, is still linked in loop->handle_queue: "
-        "heap-use-after-free on the next walk/insert/remove of the handle queue; e.g. second allocation of the call fails",
-    "os_environ_enomem_frees_wrong_index":
-        "uv_os_environ (src/unix/core.c:1474-1479) failure path frees (*envitems)[cnt] in a loop over i, so every "
-        "name duplicated so far is leaked; e.g. the strdup of the third variable fails",
-    "loop_init_failure_leaks_backend_fd":
-        "uv_loop_init (src/unix/loop.c:105-127): the failure exits taken after uv__platform_loop_init never close "
-        "loop->backend_fd (one epoll descriptor leaked per failed init); e.g. pipe2 of the signal pipe or eventfd fails with EMFILE",
     "signal_global_init_aborts_on_pipe_failure":
         "the first uv_loop_init of a process runs uv__signal_global_reinit (src/unix/signal.c:100-108), which abort()s "
         "when pipe2 fails with EMFILE/ENFILE - not one of the permitted abort sites",
 }
+# repaired in /repo (uv_write2 f63c297, uv_os_environ 75025a4, uv_loop_init 9298bc0, uv_fs_poll_start 9bc8132): these are
+# plain violations if they come back; their replays stay in corpus/C16 as regression cases
 
 
 # --------------------------------------------------------------------------
@@ -260,10 +248,15 @@ def unit_monitor(name, case, impl):
         for k, what in (("dr", "active_reqs"), ("dh", "active_handles")):
             if impl["fields"].get(k, "0") != "0":
                 return "the call failed with %s and left %s changed by %s" % (impl["rc"], what, impl["fields"][k])
-        if name in ("udp_send", "getaddrinfo", "fs_stat", "fs_rename", "accept") and \
-                (impl["fields"].get("dm", "0") != "0" or impl["fields"].get("df", "0") != "0"):
-            return "the call failed with %s and left memory/descriptors behind (dm=%s df=%s)" % (
-                impl["rc"], impl["fields"].get("dm"), impl["fields"].get("df"))
+        if impl["fields"].get("dm", "0") != "0":
+            return "the call failed with %s and left %s block(s) of libuv's allocator behind" % (impl["rc"], impl["fields"]["dm"])
+        if name in ("udp_send", "getaddrinfo", "fs_stat", "fs_rename", "accept", "write2", "fs_poll_start", "os_environ") and \
+                impl["fields"].get("df", "0") != "0":
+            return "the call failed with %s and left descriptors behind (df=%s)" % (impl["rc"], impl["fields"].get("df"))
+        if name == "loop_init" and impl["fields"].get("df", "0") not in ("0", "2"):
+            return "uv_loop_init failed with %s and left descriptors behind (df=%s)" % (impl["rc"], impl["fields"].get("df"))
+    if impl["status"] == "EXIT0" and name == "os_environ" and (" live=0" not in impl["events"] or " lsan=0" not in impl["events"]):
+        return "blocks still live after uv_os_environ / uv_os_free_environ"
     if realistic and impl["status"] in ("ASAN", "ASSERT") :
         return "%s: %s" % (impl["status"], impl["digest"][:160])
     if impl["rc"].startswith("ABORT") and impl["rc"].endswith(":unpermitted") and realistic:
@@ -448,17 +441,7 @@ def monitor(scen, plan, kind, ref, out, resolver):
 
 
 def classify_known(scen, plan, key, text, out):
-    """map a monitor verdict to one of the documented findings"""
-    status, events, points, dg = parse_out(out)
-    j = " ".join(events)
-    if re.search(r"\bwrite\d?=ENOMEM!r\+1", j) or ("U:write2 rc=ENOMEM dr=1" in j):
-        return "uv_write2_enomem_leaves_req_registered"
-    if status == "ASAN" and "heap-use-after-free" in dg and "uv_fs_poll_start" in dg:
-        return "fs_poll_start_stat_failure_frees_ctx_with_linked_timer"
-    if re.search(r"os_environ(?: rc)?=ENOMEM", j) and key in ("memleak", "lsan"):
-        return "os_environ_enomem_frees_wrong_index"
-    if re.search(r"loop_init(?: rc)?=E", j) and key == "fdleak":
-        return "loop_init_failure_leaks_backend_fd"
+    """map a monitor verdict to the documented finding that is still open"""
     if key == "abort_at_signal_global_init":
         return "signal_global_init_aborts_on_pipe_failure"
     return None
@@ -467,21 +450,19 @@ def classify_known(scen, plan, key, text, out):
 _reported = set()
 
 
-def report(chk, key, text, replay, dev_known):
+def report(chk, key, text, replay):
     kk = replay.get("known_key")
     f = chk.match_known(kk) if kk else None
-    if f is None and kk and dev_known and kk in dev_known:
-        f = dev_known[kk]
     if f is not None:
         chk.known_hit(f)
         f.setdefault("example", replay)
         return
     if kk:
-        # a documented defect that is not (yet) listed in known_findings.json: one report per key
+        # a documented defect that is not listed in known_findings.json: one report per key
         if kk in _reported:
             return
         _reported.add(kk)
-        chk.violation("unlisted finding %s: %s" % (kk, KNOWN_TEXT.get(kk) or EXTRA_KNOWN.get(kk) or text), replay)
+        chk.violation("unlisted finding %s: %s" % (kk, KNOWN_TEXT.get(kk) or text), replay)
         return
     chk.violation("%s: %s" % (key, text), replay)
 
@@ -504,13 +485,6 @@ def main():
     env.update({"C16_DIR": wdir, "ASAN_OPTIONS": "exitcode=98:detect_leaks=1:abort_on_error=0:handle_abort=0",
                 "UBSAN_OPTIONS": "print_stacktrace=1", "HOME": os.environ.get("HOME", "/root")})
     resolver = Resolver(exe)
-    # development aid only: treat the entries proposed in notes/C16.md as listed
-    dev_known = None
-    if os.environ.get("C16_ASSUME_KNOWN"):
-        dev_known = {k: {"property": "C16", "key": k, "status": "known", "what": v} for k, v in KNOWN_TEXT.items()}
-        for k2, v2 in extra_known().items():
-            dev_known[k2] = {"property": "C16", "key": k2, "status": "known", "what": v2}
-
     def run(cases):
         """round-robin over JOBS forking servers (slow cases are spread evenly)"""
         import concurrent.futures
@@ -590,15 +564,9 @@ def main():
         for c, o, impl, mc, mo, (scen, name, head, pre) in zip(cases, outs, impls, mcases, mouts, meta):
             chk.count("unit", c + "=>" + impl["rc"] + impl["events"][:80])
             diffs = unit_compare(impl, mo, pre)
-            kk = classify_known(scen, c, "", "", o)
-            if kk is None and impl["rc"] == "ENOMEM" and name == "os_environ" and impl["fields"].get("dm", "0") != "0":
-                kk = "os_environ_enomem_frees_wrong_index"
-            if kk is None and name == "loop_init" and impl["rc"].startswith("E") and impl["fields"].get("df", "0") not in ("0", "2"):
-                kk = "loop_init_failure_leaks_backend_fd"
-            if kk is None and impl["rc"] == "ABORT:signal_global_init:unpermitted":
-                kk = "signal_global_init_aborts_on_pipe_failure"
+            kk = "signal_global_init_aborts_on_pipe_failure" if impl["rc"] == "ABORT:signal_global_init:unpermitted" else None
             if kk:
-                report(chk, kk, "", {"kind": "known", "case": c, "impl": o[:1500], "model": mo, "known_key": kk}, dev_known)
+                report(chk, kk, "", {"kind": "known", "case": c, "impl": o[:1500], "model": mo, "known_key": kk})
             if diffs:
                 chk.cov["disagreements_checked"] += 1
                 nbad += 1
@@ -722,14 +690,14 @@ def main():
             stats["permitted_abort:" + key[10:]] += 1
             continue
         kk = classify_known(s, pl, key, text, o)
-        fkey = kk or extra_classify(s, pl, key, text, o) or ("%s:%s" % (key, api))
+        fkey = kk or ("%s:%s" % (key, api))
         findings.setdefault(fkey, []).append((c, key, text, o))
     for fkey, lst in findings.items():
         c, key, text, o = lst[0]
         stats["finding:" + fkey] = len(lst)
         report(chk, key, text + " (%d runs)" % len(lst),
-               {"kind": "monitor", "case": c, "impl": o[:3000], "known_key": fkey if (fkey in KNOWN_TEXT or fkey in extra_known()) else None,
-                "all_cases": [x[0] for x in lst[:40]]}, dev_known)
+               {"kind": "monitor", "case": c, "impl": o[:3000], "known_key": fkey if fkey in KNOWN_TEXT else None,
+                "all_cases": [x[0] for x in lst[:40]]})
     chk.corr("enumeration: single faults / EINTR storms%s on %d scenarios" % (" / pairs" if thorough else "", len(refs)), len(cases))
     chk.cov["enumeration"] = dict(stats)
     chk.cov["fault_points_by_api"] = dict(byapi.most_common(60))
@@ -750,21 +718,6 @@ def main():
         explanation="memory corruption is ASan's verdict; leaks are the harness allocator's ledger and LSan; descriptor leaks "
                     "are /proc/self/fd against the baseline after uv_library_shutdown()")
 
-
-# findings beyond the five of DESIGN.md section 3 (filled in as they were found; see notes/C16.md)
-def extra_known():
-    return EXTRA_KNOWN
-
-
-def extra_classify(scen, plan, key, text, out):
-    for k, fn in EXTRA_RULES:
-        if fn(scen, plan, key, text, out):
-            return k
-    return None
-
-
-EXTRA_KNOWN = {}
-EXTRA_RULES = []
 
 if __name__ == "__main__":
     main()
